@@ -241,7 +241,7 @@ func TileShape(r *core.Rng, target int) ([]byte, string) {
 				// number, text): every item goes through that property's value parser
 				prop := r.PickStr("xmp:CreateDate", "xmp:ModifyDate", "exif:DateTimeOriginal", "xmpMM:InstanceID", "xmpMM:DocumentID", "exif:FNumber", "xmp:Rating", "dc:subject", "dc:creator", "tiff:Make")
 				head += "<" + prop + "><rdf:" + r.PickStr("Seq", "Bag", "Alt") + ">"
-				u = r.PickStr("<a:b>x", "<rdf:li>x</rdf:li>", "<rdf:li>2020</rdf:li>", "<rdf:li/>", "<rdf:li>a:b:c</rdf:li>", "<rdf:li>2020-13-45T99:99:99</rdf:li>", "<rdf:li>1/0</rdf:li>")
+				u = r.PickStr("<a:b>x", "<:>x", "<:>x", "<rdf:li>x</rdf:li>", "<rdf:li>2020</rdf:li>", "<rdf:li/>", "<rdf:li>a:b:c</rdf:li>", "<rdf:li>2020-13-45T99:99:99</rdf:li>", "<rdf:li>1/0</rdf:li>")
 			}
 		}
 		out := append([]byte(head), rep([]byte(u))...)
